@@ -1,5 +1,8 @@
 """Driver for C14: blocks, merkle roots, BIP37 merkleblock proofs.
 
+    python -m vf.drv.block JOB.json      worker mode, see main() at the end: the message cases in a fresh
+                                         process that loaded several networks first, in a given order
+
 Three things live here and nothing else:
 
 (a) ``Ev`` - the evaluator of the uninterpreted terms the specs print
@@ -18,10 +21,21 @@ import io
 from pycoin.block import Block as BaseBlock
 from pycoin.merkle import merkle
 from pycoin.encoding.hash import double_sha256
-from pycoin.symbols.btc import network as BTC
-from pycoin.symbols.ltc import network as LTC
 
-NETWORKS = {"BTC": BTC, "LTC": LTC}
+
+class _Networks(dict):
+    """symbol -> network, loaded on first use (the worker mode decides the order itself; the replay in the
+    parent process asks BTC first, then LTC)"""
+
+    def __missing__(self, sym):
+        import importlib
+        self[sym] = importlib.import_module("pycoin.symbols." + sym.lower()).network
+        return self[sym]
+
+
+NETWORKS = _Networks()
+if __name__ != "__main__":          # imported by the harness: Bitcoin, then Litecoin (as before); worker mode: see main()
+    NETWORKS["BTC"], NETWORKS["LTC"]
 
 
 def sha256d(b):
@@ -152,11 +166,16 @@ def run_header(net, image, fields, nonce2):
 # ---------------------------------------------------------------- blocks
 
 def run_block(net, image, how):
-    """how: 'parse' Block.parse(stream) | 'from_bin' | 'deferred' parse(check_merkle_hash=False) then check_merkle_hash()"""
+    """how: 'parse' Block.parse(stream) | 'from_bin' | 'deferred' parse(check_merkle_hash=False) then check_merkle_hash()
+    | 'msg' the image as payload of a "block" message: network.message.parse, then network.message.pack"""
     B = NETWORKS[net].block
     try:
         f = io.BytesIO(image)
-        if how == "parse":
+        if how == "msg":
+            M = NETWORKS[net].message
+            b = M.parse("block", image)["block"]
+            f.seek(len(image) if M.pack("block", block=b) == image else 0)     # consumed = all iff it packs back
+        elif how == "parse":
             b = B.parse(f)
         elif how == "from_bin":
             b = B.from_bin(image)
@@ -217,3 +236,40 @@ def raw_legacy_tx(rnd):
         out += rnd.randrange(0, 21 * 10 ** 14).to_bytes(8, "little") + compact_size(len(scr)) + scr
     out += rnd.randrange(0, 2 ** 32).to_bytes(4, "little")
     return out
+
+
+# ---------------------------------------------------------------- worker mode: several networks in one fresh process
+
+def main(path):
+    """JOB: {"order": [symbols], "driven": [symbols], "mb": [hex images], "blocks": [hex images]}.
+    All networks of "order" are loaded first, in that order; then every image goes to each driven network of
+    the order.  Prints {"mb": {net: [observations]}, "blocks": {net: [observations]}} (bytes as hex); nothing
+    is judged here."""
+    import importlib
+    import json
+    import sys
+
+    job = json.load(open(path))
+    for sym in job["order"]:
+        importlib.import_module("pycoin.symbols." + sym.lower())
+
+    def js(o):
+        if isinstance(o, (bytes, bytearray)):
+            return {"hex": bytes(o).hex()}
+        if isinstance(o, dict):
+            return {k: js(v) for k, v in o.items()}
+        if isinstance(o, (list, tuple)):
+            return [js(v) for v in o]
+        return o
+    out = {"mb": {}, "blocks": {}}
+    for net in job["order"]:
+        if net not in job["driven"]:
+            continue
+        out["mb"][net] = [js(run_merkleblock(net, bytes.fromhex(x))) for x in job["mb"]]
+        out["blocks"][net] = [js(run_block(net, bytes.fromhex(x), "msg")) for x in job["blocks"]]
+    json.dump(out, sys.stdout)
+
+
+if __name__ == "__main__":
+    import sys
+    main(sys.argv[1])
